@@ -3,6 +3,7 @@ package main
 import (
 	"fmt"
 	"go/ast"
+	"go/token"
 	"go/types"
 	"path/filepath"
 	"strings"
@@ -548,6 +549,101 @@ func printerSiblingsConsultSameFields(c *Check, r *repoCtx, rule string, all boo
 				continue
 			}
 			c.Ob(rule, pb.name+"."+f, must.has(f), r.pos(pb.fi.Decl.Pos()), fmt.Sprintf("%s.StreamString consults %s on every path; this printer consults it on every path: %v", pb.strct, f, must.has(f)))
+		}
+	}
+}
+
+// parserUnconditionalFills: per AST struct, the fields that some parse function assigns as a top-level statement of
+// its body (i.e. on every path that reaches the end of the function), layout fields excluded.
+func parserUnconditionalFills(r *repoCtx, pkg *types.Package, fam *astFamily) map[string]map[string]string {
+	out := map[string]map[string]string{}
+	for _, name := range sortedKeys(r.funcs) {
+		fi := r.funcs[name]
+		if !strings.HasPrefix(name, "internal/tlast.") || fi.Decl.Body == nil || !fam.parserFiles[filepath.Base(r.co.Fset.Position(fi.Decl.Pos()).Filename)] {
+			continue
+		}
+		info := fi.Pkg.TypesInfo
+		// a function that replaces its node value wholesale on some path (`res = T{…}`) fills fields only tentatively
+		replaced := map[types.Object]bool{}
+		ast.Inspect(fi.Decl.Body, func(x ast.Node) bool {
+			if as, ok := x.(*ast.AssignStmt); ok && as.Tok == token.ASSIGN {
+				for _, l := range as.Lhs {
+					if id, ok := l.(*ast.Ident); ok && info.Uses[id] != nil && fam.structs[namedStructName(info.Uses[id].Type())] {
+						replaced[info.Uses[id]] = true
+					}
+				}
+			}
+			return true
+		})
+		stop := false
+		for _, st := range fi.Decl.Body.List {
+			if stop {
+				break
+			}
+			// a nested return that hands back a node value ends the "every path" prefix of the function
+			if _, isAssign := st.(*ast.AssignStmt); !isAssign {
+				ast.Inspect(st, func(x ast.Node) bool {
+					rt, isR := x.(*ast.ReturnStmt)
+					if !isR {
+						return true
+					}
+					for _, res := range rt.Results {
+						e := ast.Unparen(res)
+						if u, isU := e.(*ast.UnaryExpr); isU {
+							e = ast.Unparen(u.X)
+						}
+						if id, isID := e.(*ast.Ident); isID {
+							if v, isVar := info.Uses[id].(*types.Var); isVar && fam.structs[namedStructName(v.Type())] {
+								stop = true
+							}
+						}
+					}
+					return true
+				})
+				continue
+			}
+			as, ok := st.(*ast.AssignStmt)
+			if !ok {
+				continue
+			}
+			for _, l := range as.Lhs {
+				sel, ok := ast.Unparen(l).(*ast.SelectorExpr)
+				if !ok {
+					continue
+				}
+				id, ok := sel.X.(*ast.Ident)
+				if !ok {
+					continue
+				}
+				obj := info.Uses[id]
+				if v, isVar := obj.(*types.Var); !isVar || v.Parent() == pkg.Scope() || replaced[obj] {
+					continue
+				}
+				s := namedStructName(obj.Type())
+				if !fam.structs[s] || layoutField(pkg, s+"."+sel.Sel.Name) {
+					continue
+				}
+				if out[s] == nil {
+					out[s] = map[string]string{}
+				}
+				out[s][sel.Sel.Name] = fi.Name()
+			}
+		}
+	}
+	return out
+}
+
+// printerConsultsWhatParserAlwaysFills: a field the parser of a node fills on every path is consulted by the node's
+// reference printer on every path (a printer that looks at it only for some shapes of the node drops it for the others).
+func printerConsultsWhatParserAlwaysFills(c *Check, r *repoCtx, pkg *types.Package, fam *astFamily, rule string) {
+	fills := parserUnconditionalFills(r, pkg, fam)
+	for _, pb := range printerBodies(r, fam) {
+		if !pb.isMeth || !fam.isReference(pb.fi.Obj) {
+			continue
+		}
+		must := mustRead(pb.fi.Pkg.TypesInfo, pb.v, pb.stmts)
+		for _, f := range sortedKeys(fills[pb.strct]) {
+			c.Ob(rule, pb.name+"."+f, must.has(f), r.pos(pb.fi.Decl.Pos()), fmt.Sprintf("%s fills %s.%s unconditionally; the printer consults it on every path: %v", fills[pb.strct][f], pb.strct, f, must.has(f)))
 		}
 	}
 }
